@@ -91,6 +91,7 @@ const (
 	PlainCopy                    // `$$ = $1` (with a field conversion where the tags differ), no recorder: many rules share one action text
 	Bare                         // rules with an even number and a non-empty right-hand side have NO action block at all, the others as UseAll
 	Padded                       // as UseAll, every reference but $8 and $9 written with a leading zero: $01 ... $07, $010, $011 (the number is decimal)
+	InString                     // as UseAll (all-string tags), and the text `[$1]` inside a string literal is appended to the value of every non-empty rule: the generators substitute there as well, all of them alike
 )
 
 // IsBare reports whether rule r gets no action block under the shape.
@@ -149,6 +150,9 @@ func ActionFor(r int, rule gram.Rule, tags Tags, shape ActionShape) string {
 	all := append([]string{fmt.Sprint(r)}, args...)
 	switch lt {
 	case "s":
+		if shape == InString && len(rule.R) > 0 && tags[rule.R[0]] == "s" {
+			return fmt.Sprintf(" $$ = hs(%s) + \"[$1]\"; rec(%d) ", strings.Join(all, ", "), r)
+		}
 		return fmt.Sprintf(" $$ = hs(%s); rec(%d) ", strings.Join(all, ", "), r)
 	case "n":
 		return fmt.Sprintf(" $$ = hn(%s); rec(%d) ", strings.Join(all, ", "), r)
